@@ -421,7 +421,7 @@ func ruleFanOut(w *World, r *Report, rule string) {
 	for fi := range helpers {
 		fis = append(fis, fi)
 	}
-	sort.Slice(fis, func(i, j int) bool { return fis[i].Decl.Pos() < fis[j].Decl.Pos() })
+	sort.Slice(fis, func(i, j int) bool { return posLess(fis[i].Decl.Pos(), fis[j].Decl.Pos()) })
 	for _, fi := range fis {
 		if fi == ro.setInstance || fi == ro.setSingleton {
 			continue
@@ -598,7 +598,7 @@ func ruleCreateStores(w *World, r *Report, rule string) {
 			fis = append(fis, fi)
 		}
 	}
-	sort.Slice(fis, func(i, j int) bool { return fis[i].Decl.Pos() < fis[j].Decl.Pos() })
+	sort.Slice(fis, func(i, j int) bool { return posLess(fis[i].Decl.Pos(), fis[j].Decl.Pos()) })
 	n := 0
 	for _, fi := range fis {
 		r.Analysed(fi)
